@@ -40,6 +40,12 @@ def ex(n):
     n = strip(n); k = n['kind']
     if k == 'DeclRefExpr': return n['referencedDecl']['name']
     if k == 'IntegerLiteral': return n['value']
+    if k == 'UnaryOperator' and n['opcode'] == '*' and strip(n['inner'][0])['kind'] == 'CXXThisExpr': return 'THIS'   # return *this
+    if k == 'BinaryOperator' and n['opcode'] in ('!=', '==') and strip(n['inner'][0])['kind'] == 'CXXThisExpr':
+        r = strip(n['inner'][1])   # this != std::addressof(o)
+        if r['kind'] == 'CallExpr' and callee_name(r) == 'addressof' and strip(r['inner'][1])['kind'] == 'DeclRefExpr' and strip(r['inner'][1])['referencedDecl']['name'] == 'o':
+            return '(negb self)' if n['opcode'] == '!=' else 'self'
+        raise Unsupported('comparison of this')
     if k == 'UnaryOperator':
         op = n['opcode']; a = ex(n['inner'][0])
         if op == '*': return '(deref l %s)' % a
@@ -56,6 +62,15 @@ def ex(n):
     if k == 'ConditionalOperator':
         c, a, b = [ex(x) for x in n['inner']]
         return '(if %s then %s else %s)' % (c, a, b)
+    if k == 'CXXOperatorCallExpr' and callee_name(n) == 'operator=':
+        a, b = strip(n['inner'][1]), strip(n['inner'][2])
+        def is_vec(x, owner):
+            return x['kind'] == 'MemberExpr' and x.get('name') == '_sortedVector' and strip(x['inner'][0])['kind'] == owner
+        def is_cmpref(x):
+            return x['kind'] == 'CXXMemberCallExpr' and callee_name(x) == 'compRef'
+        if is_vec(a, 'CXXThisExpr') and is_vec(b, 'DeclRefExpr') and strip(b['inner'][0])['referencedDecl']['name'] == 'o': return 'VECASSIGN'
+        if is_cmpref(a) and is_cmpref(b): return 'CMPASSIGN'   # the comparator object: not part of the list model (cmp is the same function)
+        raise Unsupported('operator= shape')
     if k == 'CXXOperatorCallExpr' and is_comp_call(n): return '(cmp %s %s)' % (ex(n['inner'][2]), ex(n['inner'][3]))
     if k == 'CXXOperatorCallExpr' and callee_name(n) == 'operator()' and strip(n['inner'][1])['kind'] == 'DeclRefExpr' and strip(n['inner'][1])['referencedDecl']['name'] == 'comp':
         return '(cmp %s %s)' % (ex(n['inner'][2]), ex(n['inner'][3]))   # const Compare &comp = compRef()
@@ -76,6 +91,8 @@ def ex(n):
             if ex(n['inner'][1]) != LEN[0] or ex(n['inner'][2]) != 'first' or ex(n['inner'][3]) != 'last':
                 raise Unsupported('range insert not at end()')
             return 'VECAPPEND'
+        if nm == 'restoreInvariants' and len(n['inner']) == 1: return 'RESTORE'
+        if nm == 'clear' and len(n['inner']) == 1 and obj is not None and (obj['kind'] == 'CXXThisExpr' or (obj['kind'] == 'MemberExpr' and obj.get('name') == '_sortedVector')): return 'CLEAR'
         if nm == 'eraseDuplicates' and len(n['inner']) == 1: return 'ERASEDUP'
         if nm == 'insert' and obj is not None and obj['kind'] == 'MemberExpr' and obj.get('name') == '_sortedVector':
             return 'VECINSERT %s' % ex(n['inner'][1])          # handled at return position
@@ -92,6 +109,7 @@ def ex(n):
             return '(%s + %s)' % (ex(args[0]), d)
         if nm == 'lower_bound': return '(lower_bound cmp l %s %s %s)' % (ex(args[0]), ex(args[1]), ex(args[2]))
         if nm == 'forward': return ex(args[0])
+        if nm == 'adjacent_find' and len(args) == 3: return '(adjacent_find_z l %s %s %s)' % (ex(args[0]), ex(args[1]), lambda_text(args[2]))
         if nm == 'stable_sort' and len(args) == 3: return 'SSORT %s %s' % (ex(args[0]), ex(args[1]))
         if nm == 'inplace_merge' and len(args) == 4: return 'IMERGE %s %s %s' % (ex(args[0]), ex(args[1]), ex(args[2]))
         raise Unsupported('call ' + nm)
@@ -101,7 +119,11 @@ def ex(n):
     raise Unsupported('expr ' + k)
 def is_assert(s):
     s = strip(s); return s['kind'] == 'ConditionalOperator' and any(x.get('kind') == 'DeclRefExpr' and x.get('referencedDecl', {}).get('name') == '__assert_fail' for x in walk(s))
+WRAP = [False]   # the function has a try block: results are  inl <normal result>  /  inr <vector left by the exception>
 def ret(e):
+    if WRAP[0]:
+        if e == 'THIS': return '(inl l)'
+        raise Unsupported('return in a function with a try block')
     if e.startswith('VECINSERT '): return '(vec_insert l %s v)' % e[len('VECINSERT '):]
     if e == 'SETINSERT': return '(set_insert cmp l v)'
     if e.startswith('PAIR '): return '(l, %s)' % e[len('PAIR '):]
@@ -114,7 +136,7 @@ def update_of(s):
         if e.startswith('VECINSERT '):
             return strip(t['inner'][0])['referencedDecl']['name'], '(vec_insert l %s v)' % e[len('VECINSERT '):]
         return None
-    if t['kind'] in ('CXXMemberCallExpr', 'CallExpr'):
+    if t['kind'] in ('CXXMemberCallExpr', 'CallExpr', 'CXXOperatorCallExpr'):
         try:
             e = ex(t)
         except Unsupported:
@@ -125,6 +147,12 @@ def update_of(s):
             return None, '(erase_unique %s l)' % e[len('ERASEUNIQ '):]
         if e == 'ERASEDUP':
             return None, '(erase_duplicates_gen cmp l)'
+        if e == 'RESTORE':
+            return None, '(restore_invariants_gen cmp l)'
+        if e == 'CLEAR':
+            return None, '[]'
+        if e == 'VECASSIGN':
+            return None, 'ol'
         if e.startswith('SSORT '):
             return None, '(stable_sort_range cmp l %s)' % e[len('SSORT '):]
         if e.startswith('IMERGE '):
@@ -146,6 +174,20 @@ def block(stmts, k):
         if e == 'VECAPPEND': return 'let \'(l, %s) := vec_append l vs in\n%s' % (d['name'], block(rest, k))
         return 'let %s := %s in\n%s' % (d['name'], e, block(rest, k))
     if kind == 'ReturnStmt': return ret(ex(s['inner'][0]))
+    if kind == 'CXXThrowExpr' and not s.get('inner'):   # throw; inside a handler: the exception leaves with the vector as it is
+        return '(inr l)'
+    if kind == 'CXXTryStmt':
+        # the operations of the vector inside the try block may throw: thr = Some l' says they do and leave the vector as l'
+        # (any l': the vector only promises the basic guarantee); the handler then runs on l'
+        body, catch = s['inner'][0], s['inner'][1]
+        if len(s['inner']) != 2 or catch['kind'] != 'CXXCatchStmt': raise Unsupported('try shape')
+        handler = catch['inner'][-1]
+        restk = block(rest, k) if (rest or k is not None) else None
+        t = block([body], restk)
+        h = block([handler], None)
+        return "(match thr with\n | Some l => %s\n | None => %s\n end)" % (h, t)
+    if strip(s)['kind'] == 'CXXOperatorCallExpr' and callee_name(strip(s)) == 'operator=' and ex(s) == 'CMPASSIGN':
+        return block(rest, k)
     upd = update_of(s)
     if upd is not None:
         var, e = upd
@@ -192,7 +234,9 @@ def main():
                     ('find', 'find_gen', 'const_reference', '(cmp : Z -> Z -> bool) (l : list Z) (k : Z) : Z', {'plain': True}),
                     ('erase', 'erase_key_gen', 'const_reference', '(cmp : Z -> Z -> bool) (l : list Z) (v : Z) : list Z * Z', {}),
                     ('eraseDuplicates', 'erase_duplicates_gen', 'void0', '(cmp : Z -> Z -> bool) (l : list Z) : list Z', {'void': True}),
-                    ('insert', 'insert_range_gen', 'range', '(cmp : Z -> Z -> bool) (l : list Z) (vs : list Z) : list Z', {'void': True}),
+                    ('restoreInvariants', 'restore_invariants_gen', 'void0', '(cmp : Z -> Z -> bool) (l : list Z) : list Z', {'void': True}),
+                    ('insert', 'insert_range_gen', 'range', '(cmp : Z -> Z -> bool) (l : list Z) (vs : list Z) (thr : option (list Z)) : list Z + list Z', {'void': True}),
+                    ('operator=', 'copy_assign_gen', 'copyassign', '(cmp : Z -> Z -> bool) (l ol : list Z) (self : bool) (thr : option (list Z)) : list Z + list Z', {}),
                 ]
                 texts = []
                 # non-template members: only those of the instantiated class FlatSet<int> (the template pattern has unresolved calls)
@@ -204,7 +248,7 @@ def main():
                 for cname, gname, tfilter, sig, opts in SPECS:
                     found = None
                     for o in objs:
-                        for n in (inst_methods if tfilter in ('const_reference', 'void0') else walk(o)):
+                        for n in (inst_methods if tfilter in ('const_reference', 'void0', 'copyassign') else walk(o)):
                             if n.get('kind') == 'CXXMethodDecl' and n.get('name') == cname and any(c.get('kind') == 'CompoundStmt' for c in n.get('inner', [])):
                                 qt = n.get('type', {}).get('qualType', '')
                                 params = [c for c in n['inner'] if c['kind'] == 'ParmVarDecl']
@@ -214,6 +258,8 @@ def main():
                                 if tfilter == 'const_reference' and not (len(params) == 1 and ('const_reference' in ptypes[0] or ptypes[0] == 'const int &')):
                                     continue
                                 if tfilter == 'void0' and params:
+                                    continue
+                                if tfilter == 'copyassign' and not (len(params) == 1 and ptypes[0].startswith('const amc::FlatSet<int')):
                                     continue
                                 if tfilter == 'range' and not (len(params) == 2 and ptypes[0] == 'const int *' and ptypes[1] == 'const int *'):
                                     continue
@@ -227,7 +273,9 @@ def main():
                     try:
                         body = [c for c in found['inner'] if c['kind'] == 'CompoundStmt'][0]
                         LEN[0] = 'len' if gname == 'insert_hint_gen' else '(vlen l)'
-                        g = block([body], 'l' if opts.get('void') else None)
+                        WRAP[0] = any(m.get('kind') == 'CXXTryStmt' for m in walk(body))
+                        g = block([body], ('(inl l)' if WRAP[0] else 'l') if opts.get('void') else None)
+                        WRAP[0] = False
                         if opts.get('plain'):   # a value, not a (list, value) pair
                             g = g.replace('(l, ', '(')
                         texts.append('Definition %s %s :=\n  let len := Z.of_nat (length l) in\n%s.' % (gname, sig, g))
@@ -235,7 +283,7 @@ def main():
                     except Unsupported as e:
                         summary['errors'][cname] = 'untranslatable: ' + str(e)
                 # definition order: find before erase (erase calls find); insert_val before insert_hint is not needed
-                order = {'find_gen': 0, 'insert_val_gen': 1, 'erase_key_gen': 2, 'erase_duplicates_gen': 3, 'insert_range_gen': 4, 'insert_hint_gen': 5}
+                order = {'find_gen': 0, 'insert_val_gen': 1, 'erase_key_gen': 2, 'erase_duplicates_gen': 3, 'restore_invariants_gen': 4, 'insert_range_gen': 5, 'copy_assign_gen': 6, 'insert_hint_gen': 7}
                 texts.sort(key=lambda t: order.get(t.split()[1], 9))
                 text = '\n\n'.join(texts) if texts else None
             except Unsupported as e:
